@@ -155,4 +155,11 @@ def Normal : List Item → Bool
 
 def allOk (items : List Item) : Bool := items.all Item.ok
 
+/-- the token's value is the slice of `src` that starts at the token's start index -/
+def Token.inSrc (src : Str) (t : Token) : Prop := (src.drop t.start).take t.value.length = t.value
+
+/-- the token kinds whose value is cut out of the source unchanged -/
+def Token.sliced (t : Token) : Bool := t.kind == .tag || t.kind == .expression || t.kind == .output
+
+
 end LiquidVerif.Lex
